@@ -13,6 +13,7 @@ import (
 	"sort"
 	"strings"
 	"sync"
+	"syscall"
 	"time"
 )
 
@@ -128,7 +129,8 @@ func (p *Pool) runOne(kind string, pj json.RawMessage, shard, of int, only, resu
 	} else {
 		cmd = exec.Command(exe, args...)
 	}
-	cmd.Env = append(append(os.Environ(), "GOMAXPROCS=2"), p.Env...)
+	cmd.Env = append(append(os.Environ(), "GOMAXPROCS=2", "VERIF_TMP="+tmp), p.Env...)
+	cmd.SysProcAttr = &syscall.SysProcAttr{Pdeathsig: syscall.SIGKILL}
 	stdout, _ := cmd.StdoutPipe()
 	var stderr bytes.Buffer
 	cmd.Stderr = &limitedWriter{w: &stderr, n: 1 << 16}
